@@ -361,7 +361,27 @@ def _full(b, shape):
     for idx in (_np.ndindex(*shape) if shape else [()]):
         o[idx] = b
     return o
-NMF = _unmodelled("sklearn.decomposition.NMF")
+class NMF:
+    """A4: sklearn.decomposition.NMF: `components_` is SOME non-negative (n_components x n_features) matrix, not identically
+    zero, a function of (data, random_state); nothing else about it is used by the code under verification"""
+
+    instances = []
+
+    def __init__(self, n_components=None, random_state=None, init=None, max_iter=200, verbose=0, **kw):
+        _trust("sklearn NMF: components_ is a non-negative, non-zero matrix determined by the data and random_state")
+        self.n_components, self.random_state, self.init, self.max_iter = n_components, random_state, init, max_iter
+        NMF.instances.append(self)
+
+    def fit(self, X, y=None):
+        from .sym import sym_array
+
+        X = _base(to_symarray(X))
+        C = sym_array(f"nmf[{self.random_state}].components", (int(self.n_components), X.shape[1]))
+        flat = _base(C).ravel().tolist()
+        CTX.add(z3.And(*[e.z >= 0 for e in flat], z3.Or(*[e.z > 0 for e in flat])), "axiom")
+        self.components_ = C
+        self.fitted_on = X
+        return self
 PCA = _unmodelled("sklearn.decomposition.PCA")
 class Generator:
     """A4: numpy.random.Generator -- draws are havoc values inside their documented support and a FUNCTION of
